@@ -38,6 +38,90 @@ var rtFuncs = map[string]bool{
 	"execute": true, "runWithID": true, "eval": true, "evalPath": true, "EvalPath": true, "Eval": true,
 }
 
+// rtAuto is computed per tree: the named functions (transitively) called from
+// frame closures and from the functions above, i.e. code that executes at run
+// time. Purely compile-time files are left out.
+var rtAuto = map[string]bool{}
+
+var compileOnlyFiles = map[string]bool{"cfg.go": true, "gta.go": true, "ast.go": true, "typecheck.go": true, "dot.go": true, "generic.go": true, "src.go": true, "build.go": true,
+	"use.go": true, "scope.go": true, "interp.go": true, "program.go": true, "trace.go": true, "doc.go": true}
+
+// calledNames collects the names called inside n.
+func calledNames(n ast.Node, into map[string]bool) {
+	ast.Inspect(n, func(x ast.Node) bool {
+		if c, ok := x.(*ast.CallExpr); ok {
+			switch f := c.Fun.(type) {
+			case *ast.Ident:
+				into[f.Name] = true
+			case *ast.SelectorExpr:
+				into[f.Sel.Name] = true
+			}
+		}
+		return true
+	})
+}
+
+// discoverRT fills rtAuto from the parsed files of the tree.
+func discoverRT(files map[string]*ast.File) {
+	decls := map[string][]*ast.FuncDecl{}
+	declFile := map[*ast.FuncDecl]string{}
+	seed := map[string]bool{}
+	for name, f := range files {
+		for _, d := range f.Decls {
+			if fd, ok := d.(*ast.FuncDecl); ok && fd.Body != nil {
+				decls[fd.Name.Name] = append(decls[fd.Name.Name], fd)
+				declFile[fd] = name
+				if rtFuncs[fd.Name.Name] || rtFiles[name] {
+					calledNames(fd.Body, seed)
+				}
+			}
+		}
+		ast.Inspect(f, func(x ast.Node) bool {
+			if fl, ok := x.(*ast.FuncLit); ok {
+				if isFrame, _, _ := frameLit(fl.Type); isFrame {
+					calledNames(fl.Body, seed)
+					return false
+				}
+			}
+			return true
+		})
+	}
+	work := []string{}
+	for n := range seed {
+		work = append(work, n)
+	}
+	sort.Strings(work)
+	for len(work) > 0 {
+		n := work[0]
+		work = work[1:]
+		if rtAuto[n] {
+			continue
+		}
+		fds := decls[n]
+		if len(fds) == 0 {
+			continue
+		}
+		any := false
+		for _, fd := range fds {
+			if compileOnlyFiles[declFile[fd]] {
+				continue
+			}
+			any = true
+			more := map[string]bool{}
+			calledNames(fd.Body, more)
+			var ms []string
+			for m := range more {
+				ms = append(ms, m)
+			}
+			sort.Strings(ms)
+			work = append(work, ms...)
+		}
+		if any {
+			rtAuto[n] = true
+		}
+	}
+}
+
 // Files that are run-time code as a whole.
 var rtFiles = map[string]bool{"debugger.go": true}
 
@@ -428,7 +512,7 @@ func (w *weaver) file(f *ast.File) {
 			if x.Body == nil {
 				continue
 			}
-			rt := fileRT || rtFuncs[x.Name.Name]
+			rt := fileRT || rtFuncs[x.Name.Name] || (rtAuto[x.Name.Name] && !compileOnlyFiles[w.name])
 			w.stmts(x.Body.List, x.Name.Name, rt)
 		case *ast.GenDecl:
 			w.exprsIn(x, "", false)
@@ -556,6 +640,19 @@ func main() {
 		names = append(names, n)
 	}
 	sort.Strings(names)
+	parsed := map[string]*ast.File{}
+	for _, n := range names {
+		src, err := os.ReadFile(filepath.Join(dir, n))
+		if err != nil {
+			die("%v", err)
+		}
+		pf, err := parser.ParseFile(token.NewFileSet(), n, src, 0)
+		if err != nil {
+			die("parse %s: %v", n, err)
+		}
+		parsed[n] = pf
+	}
+	discoverRT(parsed)
 	for _, n := range names {
 		src, err := os.ReadFile(filepath.Join(dir, n))
 		if err != nil {
@@ -630,5 +727,5 @@ func main() {
 		counts[s.Kind]++
 	}
 	cj, _ := json.Marshal(counts)
-	fmt.Printf("weave: %d files, %d sites %s\n", len(overlay)-1, len(sites), cj)
+	fmt.Printf("weave: %d files, %d sites %s, %d run-time functions discovered\n", len(overlay)-1, len(sites), cj, len(rtAuto))
 }
